@@ -61,6 +61,10 @@ theorem rangesOk_siblings (src : List Nat) (t p : Tree) (h : rangesOk src t = tr
     rw [hcs] at this
     exact sibsOk_adjacent k pre x y post this hs hx hy he a b c d rx ry
 
+/-- the reporting variant evaluated by the driver finds nothing exactly when `rangesOk` holds -/
+theorem viol_nil_iff (src : List Nat) (t : Tree) : viol src none "root" t = [] ↔ rangesOk src t = true :=
+  viol_nil_iff_top src t
+
 /-- non-vacuity: `f(é)` as bytes `66 28 c3 a9 29`; Call 0..5 with func 0..1 and one argument 2..4 -/
 example : rangesOk [0x66, 0x28, 0xc3, 0xa9, 0x29]
     (.node "ExprCall" "value" false (some (0, 5))
